@@ -10,9 +10,14 @@ Recursion is on a fuel argument because `Val` nests `List Val` (no structural re
 namespace Fdo.Cbor
 open Fdo
 
+/-- key types whose encoding needs no recursion (all map keys of the wire types: integers, strings, labels) -/
+def Schema.scalarKey : Schema → Bool
+  | .uint _ | .int _ | .text | .bytes | .bool | .label => true
+  | _ => false
+
 /-- encodings of values of this type never begin with null/undefined (so `*T` can tell nil from a value) -/
 def Schema.neverNull : Schema → Bool
-  | .uint _ | .int _ | .bool | .bytes | .text | .fixed _ | .slice _ | .struct _ | .tagAny _ | .tagNum _ _ | .bstr _ | .wrap _ | .wrapBytes | .cert => true
+  | .uint _ | .int _ | .bool | .bytes | .text | .fixed _ | .slice _ | .struct _ | .tagAny _ | .tagNum _ _ | .bstr _ | .wrap _ | .wrapBytes | .cert | .mapOf _ _ => true
   | _ => false
 
 mutual
@@ -21,6 +26,7 @@ def Schema.ptrDepth : Schema → Nat
   | .slice e => e.ptrDepth
   | .struct fs => fs.ptrDepth
   | .ptr e => e.ptrDepth + 1
+  | .mapOf k v => max k.ptrDepth v.ptrDepth
   | .tagAny e => e.ptrDepth
   | .tagNum _ e => e.ptrDepth + 1   -- the wrapper's own raw pass costs a step
   | .bstr e => e.ptrDepth
@@ -101,6 +107,7 @@ def Schema.inFragment : Schema → Bool
   | .wrapBytes => true
   | .ptr e => e.inFragment && e.neverNull
   | .raw => true
+  | .mapOf k v => k.inFragment && k.scalarKey && v.inFragment
   | .cert => true
   | .timestamp => true
   | .label => true
@@ -112,6 +119,16 @@ def Fields.inFragment : Fields → Bool
   | .cons _ true _ => false
   | .hdr fs => fs.inFragment
 end
+
+
+/-- the keys of a Go map value in strictly ascending bytewise order of their encodings (the order `encodeMap`
+writes them in; a `Val.map` in any other order denotes the same Go map and is written identically) -/
+def mapSortedB (ks : Schema) : List (Val × Val) → Bool
+  | [] => true
+  | a :: l =>
+    l.all (fun b => match encodeS 1 ks a.1, encodeS 1 ks b.1 with
+      | some x, some y => bytesLt x y
+      | _, _ => false) && mapSortedB ks l
 
 mutual
 /-- `wconf g d s v`: the encoding of `v` is one item the *untyped* decoder (`decodeRaw`, used by
@@ -138,6 +155,7 @@ def wconf : Nat → Nat → Schema → Val → Bool
     | .ptr _, .nilp => true
     | .ptr e, .ref x => wconf g d e x
     | .cert, .cert der => decide (der.length < maxLen)
+    | .mapOf ks vs, .map ps => decide (1 ≤ d ∧ 2 * ps.length < maxLen) && wconfPairs g (d - 1) ks vs ps
     | .timestamp, .time z _ => z || decide (1 ≤ d)
     | .label, _ => true
     | .raw, .raw b =>
@@ -149,6 +167,10 @@ def wconfList : Nat → Nat → Schema → List Val → Bool
   | 0, _, _, _ => false
   | _+1, _, _, [] => true
   | g+1, d, e, v :: vs => wconf g d e v && wconfList g d e vs
+def wconfPairs : Nat → Nat → Schema → Schema → List (Val × Val) → Bool
+  | 0, _, _, _, _ => false
+  | _+1, _, _, _, [] => true
+  | g+1, d, ks, vs, (k, v) :: ps => wconf g d ks k && wconf g d vs v && wconfPairs g d ks vs ps
 def wconfFields : Nat → Nat → Fields → List Val → Bool
   | 0, _, _, _ => false
   | _+1, _, .nil, [] => true
@@ -179,6 +201,7 @@ def conf (ok : CertOracle) : Nat → Nat → Schema → Val → Bool
     | .wrapBytes, .bytes _ => true
     | .ptr _, .nilp => true
     | .ptr e, .ref x => conf ok g d e x
+    | .mapOf ks vs, .map ps => decide (1 ≤ d ∧ ps.length < maxLen / 2) && confPairs ok g (d - 1) ks vs ps && mapSortedB ks ps
     | .cert, .cert der => ok der                       -- the DER string is one x509.ParseCertificate accepts (oracle)
     | .timestamp, .time z u => decide ((z = true → u = 0) ∧ -9223372036854775808 ≤ u ∧ u ≤ 9223372036854775807)
     | .label, l => labelOK l
@@ -192,6 +215,10 @@ def confList (ok : CertOracle) : Nat → Nat → Schema → List Val → Bool
   | 0, _, _, _ => false
   | _+1, _, _, [] => true
   | g+1, d, e, v :: vs => conf ok g d e v && confList ok g d e vs
+def confPairs (ok : CertOracle) : Nat → Nat → Schema → Schema → List (Val × Val) → Bool
+  | 0, _, _, _, _ => false
+  | _+1, _, _, _, [] => true
+  | g+1, d, ks, vs, (k, v) :: ps => conf ok g d ks k && conf ok g d vs v && confPairs ok g d ks vs ps
 def confFields (ok : CertOracle) : Nat → Nat → Fields → List Val → Bool
   | 0, _, _, _ => false
   | _+1, _, .nil, [] => true
